@@ -64,6 +64,8 @@ def twin_pairs(ix):
                     for s in body:
                         if isinstance(s, ast.ImportFrom):
                             for al in s.names:
+                                if ix.has_module("%s.%s" % (s.module, al.name)):
+                                    continue        # a module is imported, not a kernel (kernels looked up by name: _reflective_pairs)
                                 imp[al.asname or al.name] = (s.module, al.name)
                     arms.append(imp)
                 if arms[0] and arms[1]:
@@ -91,7 +93,55 @@ def twin_pairs(ix):
                         f0 = ix.resolve_in(fi, c0[0].func.id)[1]
                         f1 = ix.resolve_in(fi, c1[0].func.id)[1]
                         pairs.append((f1.name, (f0.module, f0.name), (f1.module, f1.name), fi, n))
+    pairs.extend(_reflective_pairs(ix, {(p[1], p[2]) for p in pairs}))
     return pairs
+
+
+def _reflective_pairs(ix, have):
+    """twins that are selected by name: a selector function that looks its result up with getattr(<module>, <computed name>) in the
+    arms of a use_numba test, called with string constants S for which <S>_numba and <S>_np exist in the modules it imports"""
+    out = []
+    for modname in (DC, RE):
+        mi = ix.module(modname)
+        selectors = {}
+        for g in mi.functions.values():
+            refl = [n for n in ast.walk(g.raw_node) if isinstance(n, ast.Call) and isinstance(n.func, ast.Name) and n.func.id == "getattr"
+                    and len(n.args) >= 2 and not isinstance(n.args[1], ast.Constant)]
+            if not refl or not any(isinstance(n, ast.If) and "use_numba" in U(n.test) for n in ast.walk(g.raw_node)):
+                continue
+            mods = []
+            for n in ast.walk(g.raw_node):
+                if isinstance(n, ast.ImportFrom):
+                    for al in n.names:
+                        full = (n.module or "") + "." + al.name
+                        if ix.has_module(full):
+                            mods.append(full)
+                        elif n.module and ix.has_module(n.module):
+                            mods.append(n.module)
+                elif isinstance(n, ast.Import):
+                    mods.extend(al.name for al in n.names if ix.has_module(al.name))
+            tests = [n for n in ast.walk(g.raw_node) if isinstance(n, ast.If) and "use_numba" in U(n.test)]
+            if len(set(mods)) == 2 and len(tests) == 1:
+                selectors[g.name] = (sorted(set(mods), key=lambda m_: not m_.endswith("numba")), g, tests[0])
+        if not selectors:
+            continue
+        for fi in mi.functions.values():
+            for c in calls(fi.raw_node):
+                if isinstance(c.func, ast.Name) and c.func.id in selectors:
+                    (m_nb, m_np), g, test = selectors[c.func.id]
+                    names = [x.value for a in c.args for x in ast.walk(a) if isinstance(x, ast.Constant) and isinstance(x.value, str)]
+                    # the argument that feeds the tested parameter at this call site
+                    gp = g.params()
+                    tested = U(test.test)
+                    fed = U(c.args[gp.index(tested)]) if tested in gp and gp.index(tested) < len(c.args) else tested
+                    for s_ in names:
+                        nb, np_ = (m_nb, s_ + "_numba"), (m_np, s_ + "_np")
+                        if nb[1] in ix.module(m_nb).functions and np_[1] in ix.module(m_np).functions and (nb, np_) not in have:
+                            have.add((nb, np_))
+                            sel_if = ast.If(test=ast.parse(fed, mode="eval").body, body=[], orelse=[])
+                            ast.copy_location(sel_if, c)
+                            out.append((s_, nb, np_, fi, sel_if))
+    return out
 
 
 def _tonum(v):
